@@ -7,7 +7,7 @@ BASE = {
     "DEV_NormalizeInclusive": "FALSE", "DEV_ParseStopsAtN": "FALSE", "DEV_DeltaSingleCharNoop": "FALSE", "DEV_AdminSelfRaise": "FALSE",
 }
 # as-built deviations currently present in /repo (each one is a known finding or gets a fix: commit)
-DEV_ALL = ["DEV_NewSubWantO", "DEV_UnsetWantTakesGiven", "DEV_BannedUpdateApplied", "DEV_OfflineSetSubBypassesCache", "DEV_ReadNoteRecvNotStored"]
+DEV_ALL = ["DEV_NewSubWantO", "DEV_UnsetWantTakesGiven", "DEV_BannedUpdateApplied", "DEV_OfflineSetSubBypassesCache", "DEV_ReadNoteRecvNotStored", "DEV_ChanReaderMarksNotCached"]
 DEV_INTENDED = {k: "FALSE" for k in DEV_ALL}
 # all three were repaired in /repo by fix: commits (bba6993, 2b35c55, 197cbbc): as-built == as-intended for them.
 # The switches stay in the spec: turning one on regenerates the counterexample that the fix removed (regression behaviours).
@@ -16,6 +16,8 @@ DEV_BUILT = dict(DEV_INTENDED)
 DEV_BUILT["DEV_OfflineSetSubBypassesCache"] = "TRUE"
 # known finding C09-read-note-recv-not-stored (the repair would break pinned unit tests that fix the exact update map)
 DEV_BUILT["DEV_ReadNoteRecvNotStored"] = "TRUE"
+# known finding C09-channel-reader-marks (readers' marks are not kept in the live topic)
+DEV_BUILT["DEV_ChanReaderMarksNotCached"] = "TRUE"
 
 
 def population(nusers=3, sess_per_user=1, topics=("g1",)):
